@@ -238,6 +238,19 @@ Definition constraint_pure (c : constraint) : bool :=
 Lemma set_size_in r z : in_range r z -> in_range (set_size r) z.
 Proof. unfold in_range, set_size. cbn. tauto. Qed.
 
+Lemma mark_ext_in t r z : in_range r z -> in_range (mark_ext t r) z.
+Proof. unfold mark_ext. destruct (t && _); [|tauto]. unfold in_range. cbn. tauto. Qed.
+
+Lemma no_marker_trailing r : no_elem_marker r = true -> trailing_marker r = false.
+Proof.
+  induction r as [e | b o r IH]; cbn [no_elem_marker trailing_marker].
+  - intro H. apply negb_true_iff in H. destruct e; cbn in H |- *; auto.
+  - intro H. apply andb_true_iff in H as [_ H]. exact (IH H).
+Qed.
+
+Lemma mark_ext_false r : mark_ext false r = r.
+Proof. reflexivity. Qed.
+
 Lemma range_of_elem_pure rho fuel e rg z :
   pure_elem e = true -> sem_elem rho e z -> range_of_elem fuel (Some e) = Ok rg -> in_range rg z.
 Proof.
@@ -275,7 +288,7 @@ Proof.
           cbn [pure_eos] in Hp. exact (range_of_elem_pure rho fuel e' r' z Hp Hs Er).
         * destruct (fold fuel b o operant None true) as [fe| | |] eqn:Ef; cbn [bind] in Epv; try discriminate Epv.
           destruct (range_of_elem fuel fe) as [r'| | |] eqn:Er; cbn [bind] in Epv; try discriminate Epv.
-          inversion Epv; subst pv. apply set_size_in.
+          inversion Epv; subst pv. apply mark_ext_in, set_size_in.
           cbn [pure_eos] in Hp. apply andb_true_iff in Hp as [Hb Ho].
           exact (fold_range rho fuel b o operant fe r' z Hb Ho Ef Er Hs).
       + exact (range_of_elem_pure rho fuel _ pv z Hp Hs Epv).
@@ -283,7 +296,7 @@ Proof.
       destruct (range_of_elem fuel fe) as [r'| | |] eqn:Er; cbn [bind] in Epv; try discriminate Epv.
       cbn [pure_eos] in Hp. apply andb_true_iff in Hp as [Hb Ho].
       pose proof (fold_range rho fuel b o operant fe r' z Hb Ho Ef Er Hs) as Hin.
-      inversion Epv; subst pv.
+      inversion Epv; subst pv. apply mark_ext_in.
       destruct o; try exact Hin. destruct (is_size_elem b || _); [apply set_size_in|]; exact Hin. }
   inversion Hr; subst rg.
   destruct (cext c && _); [|exact Hpv]. unfold in_range in *. cbn. exact Hpv.
@@ -426,7 +439,10 @@ Proof.
           exact (range_of_elem_unmarked fuel e' r' Hp Hn Er).
         * destruct (fold fuel b o operant None true) as [fe| | |] eqn:Ef; cbn [bind] in Epv; try discriminate Epv.
           destruct (range_of_elem fuel fe) as [r'| | |] eqn:Er; cbn [bind] in Epv; try discriminate Epv.
-          inversion Epv; subst pv. rewrite set_size_ext.
+          inversion Epv; subst pv.
+          assert (Ht : trailing_marker operant = false)
+            by (apply no_marker_trailing; cbn [no_elem_marker] in Hn; apply andb_true_iff in Hn as [_ Hn]; exact Hn).
+          rewrite Ht, mark_ext_false, set_size_ext.
           cbn [pure_eos] in Hp. apply andb_true_iff in Hp as [Hb Ho].
           exact (fold_range_unmarked fuel b o operant fe r' Hb Ho Hn Ef Er).
       + destruct fuel; cbn in Epv; discriminate Epv.
@@ -435,6 +451,9 @@ Proof.
       cbn [pure_eos] in Hp. apply andb_true_iff in Hp as [Hb Ho].
       pose proof (fold_range_unmarked fuel b o operant fe r' Hb Ho Hn Ef Er) as Hx.
       inversion Epv; subst pv.
+      assert (Ht : trailing_marker operant = false)
+        by (apply no_marker_trailing; cbn [no_elem_marker] in Hn; apply andb_true_iff in Hn as [_ Hn]; exact Hn).
+      rewrite Ht, mark_ext_false.
       destruct o; try exact Hx. destruct (is_size_elem b || _); [rewrite set_size_ext|]; exact Hx. }
   inversion Hr; subst rg. unfold bounded.
   destruct (cext c) eqn:Ec; cbn [andb].
